@@ -10,17 +10,20 @@ SPEC = {
     "level_text": "Theorems over the model of clean()/shouldClean/markDir for EVERY order of the candidates (the sort's comparator "
                   "is not a strict weak order): never a marked entry, only whole recognised unmarked entries, accounting without "
                   "wrap-around, and - when the pass runs - total below the low-water mark (then so is everything unprotected that "
-                  "is left) or every unprotected removable entry gone; refinement C14_meets_spec: every possible outcome satisfies "
-                  "the order-free specification specOK, which Lean evaluates on the outcomes of the real cleaner.  The full "
-                  "statement is refuted twice: in compressed caches the temporary of a store in flight is recognised but not "
-                  "protected (name theorems + witness, replayed on the real code with a suspended Store); read literally the bound "
-                  "also fails between the water marks (hysteresis, by design).  Two interleavings are exercised on the real code: a "
+                  "is left) or every unprotected renameable entry gone; refinement C14_meets_spec: every possible outcome satisfies "
+                  "the order-free specification specOK, which Lean evaluates on the outcomes of the real cleaner.  Failures are "
+                  "in the model separately: a failed rename keeps the entry, a failed removal of the renamed entry leaves it "
+                  "half-removed (C14_witness_half_removed; whole-entries is stated for successful removals).  The full "
+                  "statement is refuted three times on the real code: in compressed caches the temporary of a store in flight is "
+                  "recognised but not protected (name theorems + witness, suspended Store); the isMarked test and the rename are "
+                  "two steps, so an entry retrieved in between is removed (C14_witness_marked_in_window, pause point in the "
+                  "loop); and read literally the bound also fails between the water marks (hysteresis, by design).  Two interleavings are exercised on the real code: a "
                   "Store suspended at each of its operations while the cleaner runs, and entries retrieved while the cleaner is "
-                  "suspended between its walk and its eviction loop (the loop's second isMarked test).  Removal failures are in "
-                  "the model (ok) but are not provoked on the real code.",
+                  "suspended between its walk and its eviction loop, or between the loop's isMarked test of an entry and its "
+                  "rename.  Rename / removal failures are in the model (rn, rm) but are not provoked on the real code.",
     "technique": "Lean 4 theorems quantified over all permutations + order-free specification evaluated on real outcomes + exact comparison where the order is determined + regenerated facts",
     "trusted": [
-        "go/ast extractor harness/extract/c14 (name shapes of shouldClean, markDir keys, getFullPath concatenation, Store's marks, skeleton and loop order of clean)",
+        "go/ast extractor harness/extract/c14 (name shapes of shouldClean, markDir keys, getFullPath concatenation, the ORDER of Store's calls - mark before remove/store/rename - and of retrieveFiles' - exists, mark, restore -, skeleton and loop order of clean)",
         "correspondence harness/cmd/c14 vs Driver/C14.lean: shouldClean on fuzzed names; real passes over generated cache directories (marks made by real Store / Retrieve) judged by specOK in Lean and by an independent Go statement of the rules; exact outcome when candidates are a grace period apart (compressed caches only)",
         "modelled, not verified: Model/Clean.lean; sizes are those the harness measures with its own walk (lstat sizes, directories included); rename(2) atomic",
         "plain caches on a relatime filesystem: clean()'s own findSize walk reads each entry directory before os.Stat takes its access time, so eviction ORDER there is not reproducible - no theorem depends on the order",
@@ -57,6 +60,11 @@ E  clean: `if totalSize < lowWaterMark` -> `<=`
 F  harmless: clean's locals renamed (totalSize, entries, size)
    -> exit 0, 13/13, facts identical to Expected, 0 disagreements.  (The first extractor matched the local `size` by
    name and would have raised a false alarm here; it now finds the variable through its `findSize` assignment.)
+
+After the review by grpA (AUDIT.md): evict's single `ok` split into rename / removal failures (Outcome with a half-removed
+group), the test-to-rename window exercised through a second add-only pause point (third finding), Store's and
+retrieveFiles' call ORDER extracted.  Mutations A-F were run before that refactor; B was re-run after the late-mark
+extension; a full re-run of the set after the refactor is still to do.
 
 Unchanged tree: exit 0, 13/13, 613-617 cases, 0 disagreements, oracle failures only in the two listed classes.
 Measured quick wall times 243 s .. 854 s for 2-4 CPU-min per run (shared lake lock); harness alone ~14 s.
